@@ -8,7 +8,7 @@ SQLite, and read back three ways: SQLite's PRAGMAs (validates Schema.tla: mode C
 stored text, sqlittle's parser on the stored text.  TLC judges every AST (TraceSchema.tla).
 """
 import json, os, random, sqlite3
-from vlib import common, sqlgen, gen
+from vlib import common, sqlgen, gen, values
 from vlib.common import Infra
 
 
@@ -36,6 +36,9 @@ def norm_parsed(p, kind):
                 "cols": [{k: c[k] for k in ("name", "pk", "pkdesc", "autoinc", "unique", "notnull", "collate", "hasdefault", "ncheck", "references")} for c in p["cols"]],
                 "tcons": [{"k": t["k"], "cols": [{"name": c["name"], "coll": c["coll"], "desc": c["desc"]} for c in t["cols"]]} for t in p["tcons"]]}
     return {"ok": True, "name": p["name"], "unique": p["unique"], "cols": [{"name": c["name"], "coll": c["coll"], "desc": c["desc"]} for c in p["cols"]]}
+
+
+DATA_PAIRS = []
 
 
 def collect(v, tier, rnd, h, d, prop):
@@ -72,11 +75,27 @@ def collect(v, tier, rnd, h, d, prop):
                 continue
             batch.append((ast, sql, isql))
         con.commit()
+        # two rows per table with a different value in every column: whatever the interpretation of the definition gets wrong
+        # about WHERE a column is stored (rowid alias, primary key columns first in a WITHOUT ROWID table, names spelled in
+        # another case in a constraint) shows as values in the wrong columns
+        datarows = {}
+        if prop == "C10":
+            for ast, sql, isql in batch:
+                names = [c[1] for c in con.execute('PRAGMA table_xinfo("%s")' % ast["name"]).fetchall() if c[6] == 0]
+                try:
+                    for base in (10, 60):
+                        con.execute('INSERT INTO "%s"(%s) VALUES(%s)' % (ast["name"], ",".join('"%s"' % n_.replace('"', '""') for n_ in names), ",".join("?" * len(names))),
+                                    [base + j if base == 10 else base + len(names) - j for j in range(len(names))])
+                    want = con.execute('SELECT %s FROM "%s"' % (",".join('"%s"' % n_.replace('"', '""') for n_ in names), ast["name"])).fetchall()
+                    datarows[ast["name"]] = (names, want)
+                except sqlite3.Error:
+                    pass
+            con.commit()
         rows = []
         for ast, sql, isql in batch:
             sq = sqlgen.sqlite_view(con, ast)
-            stored = con.execute("SELECT sql FROM sqlite_master WHERE name=?", (ast["name"],)).fetchone()[0]
-            istored = [con.execute("SELECT sql FROM sqlite_master WHERE name=?", (x["name"],)).fetchone()[0] for x in ast["idx"]]
+            stored = con.execute("SELECT sql FROM sqlite_master WHERE name=? COLLATE NOCASE", (ast["name"],)).fetchone()[0]
+            istored = [con.execute("SELECT sql FROM sqlite_master WHERE name=? COLLATE NOCASE", (x["name"],)).fetchone()[0] for x in ast["idx"]]
             rows.append((ast, sq, stored, istored))
         con.close()
         # sqlittle: Schema on the file, parser on the stored texts
@@ -86,6 +105,21 @@ def collect(v, tier, rnd, h, d, prop):
         if rc != 0:
             raise common.harness_failure(txt)
         res = {r["id"]: r for r in common.read_ndjson(out)}
+        if datarows:
+            dreq, dout = os.path.join(d, "dreq%d.ndjson" % fileno), os.path.join(d, "dres%d.ndjson" % fileno)
+            order = sorted(datarows)
+            common.write_ndjson(dreq, [{"db": path, "mode": "keep", "ops": [{"op": "select_all", "table": t_, "cols": datarows[t_][0], "id": k} for k, t_ in enumerate(order)]}])
+            rc, txt, _ = common.run([h, "ops", dreq, dout], timeout=600)
+            if rc != 0:
+                raise common.harness_failure(txt)
+            dres = {r["id"]: r for r in common.read_ndjson(dout)}
+            for k, t_ in enumerate(order):
+                if dres[k].get("err"):
+                    continue          # a definition sqlittle refuses: no rows, as the property allows
+                got = sorted(tuple(values.from_jval(j) for j in row) for row in dres[k].get("rows") or [])
+                want = sorted(tuple(values.from_sqlite(x) for x in row) for row in datarows[t_][1])
+                stored_sql = [sql_ for a_, sql_, _ in batch if a_["name"] == t_][0]
+                DATA_PAIRS.append(({"cls": "data/%d" % len(DATA_PAIRS), "what": "rows of a table defined as %r" % stored_sql[:300], "sql": "SELECT all columns"}, got, want))
         creq = []
         for k, (a, sq, stored, istored) in enumerate(rows):
             creq.append({"op": "sqlparse", "sql": stored, "id": len(creq)})
@@ -187,8 +221,12 @@ def run(tier):
     rnd = random.Random(common.seed())
     h = common.build_harness()
     d = common.sub("c10")
+    del DATA_PAIRS[:]
     events, info = collect(v, tier, rnd, h, d, "C10")
     judge(v, "C10", events, info, d, {"schema"})
+    from checks import btfamily as bf
+    bf.rows_events(v, "C10", DATA_PAIRS, "c10")
+    v.cov["tables_whose_rows_were_compared"] = len(DATA_PAIRS)
     accepted = sum(1 for e in events if not e["res"]["err"])
     v.cov["accepted_by_sqlittle"] = accepted
     v.cov["traces_validated_against_impl"] = len(events)
